@@ -89,7 +89,7 @@ def main():
                                                  return_set=[False], taus=[1], comp_ops=['<='], default_tok=True,
                                                  n_jobs=[1, 2], props=P + ['C03'])))
     # a q=2 call first, then the q=3 call under test on the same tables (state kept between calls?)
-    ck.e2('ed-history-q2-then-q3', h_ed.make(dict(entry='ed_join', nl=1, nr=1, lens=[3, 4], alphabet=2, q=[3],
+    ck.e2('ed-history-q2-then-q3', h_ed.make(dict(entry='ed_join', nl=1, nr=2, lens_l=[3], lens_r=[3], concrete_rows_r={1: 'zzzz'}, alphabet=2, q=[3],
                                                   padding=[True], return_set=[False], taus=[1], comp_ops=['<='],
                                                   warmup_q=2, props=P + ['C03'])))
     calls = [dict(entry='jaccard_join', threshold=0.5), dict(entry='cosine_join', threshold=0.5, n_jobs=2),
